@@ -11,6 +11,11 @@ import (
 // (each op_*.go registers its families from an init function)
 var gens = map[string]func(r *rng, n int, w *bufio.Writer){}
 
+// subcmds are further sub-commands (child-process entry points of families that isolate trials in a process of their
+// own).  They are dispatched from main, i.e. after EVERY init function of the package has run, so that a child
+// generates exactly the world its parent generated.
+var subcmds = map[string]func(){}
+
 func main() {
 	if len(os.Args) < 2 {
 		fmt.Fprintln(os.Stderr, "usage: harness defects | harness gen <family> <seed> <n>")
@@ -40,6 +45,11 @@ func main() {
 		g(newRng(seed), n, w)
 		_ = w.Flush()
 	default:
+		if f, ok := subcmds[os.Args[1]]; ok {
+			f()
+
+			return
+		}
 		fmt.Fprintln(os.Stderr, "unknown command", os.Args[1])
 		os.Exit(2)
 	}
